@@ -168,6 +168,8 @@ where
     /// checks that the value is within the domain. If new domain constraint is added for a
     /// variable, it is updated to the domain store.
     pub fn process_domain(self, x: &LTerm<U, E>, domain: Rc<FiniteDomain>) -> SResult<U, E> {
+        // The caller may have walked `x` before other domain updates bound it to a value.
+        let x = &self.smap_ref().walk(x).clone();
         match x.as_ref() {
             LTermInner::Var(_, _) => self.update_var_domain(x, domain),
             LTermInner::Val(LValue::Number(v)) if domain.contains(*v) => Ok(self),
